@@ -324,3 +324,21 @@ func post(a *core.Agg) string {
 	}
 	return ""
 }
+
+// DevSubset registers a development-only property id that runs the subset of the C09 cases
+// selected by keep (used from private dev mains to exercise one monitor in isolation).
+func DevSubset(id string, keep func(kind, driver string) bool) {
+	core.Register(&core.Prop{ID: id, Level: "exploration", Rule: "development subset of C09",
+		Gen: func(seed int64, tier string) []core.Case {
+			var out []core.Case
+			for _, c := range genCases(seed, tier) {
+				var d caseData
+				core.U(c, &d)
+				if keep(d.Kind, d.Driver) {
+					out = append(out, c)
+				}
+			}
+			return out
+		},
+		Run: run, CaseTimeoutSec: 900})
+}
